@@ -14,13 +14,21 @@ func init() {
 }
 
 func checkC19(c *Ctx) {
-	t := repoTarget("internal/util/md", "md", "md/c19.go")
+	t := repoTarget("internal/util/md", "md", "md/c19.go", "md/c19api.go")
+	kernel := true
+	if l := c.load(t); l.err != nil {
+		// the kernel harness calls the unexported loadMd([]rune); if that helper was refactored
+		// the API-level harness (GetSource only) still applies
+		c.Notes = append(c.Notes, "kernel harness for loadMd does not compile against this tree ("+firstLine(l.err.Error())+"); only the API-level harness on GetSource is run")
+		t = repoTarget("internal/util/md", "md", "md/c19api.go")
+		kernel = false
+	}
 	maxL := 12
 	if !c.Quick() {
 		maxL = 18
 	}
 	var jobs []Job
-	for l := 0; l <= maxL; l++ {
+	for l := 0; kernel && l <= maxL; l++ {
 		jobs = append(jobs, Job{
 			Name:   fmt.Sprintf("loadMd L=%d", l),
 			Target: t,
@@ -28,6 +36,20 @@ func checkC19(c *Ctx) {
 			Bounds: fmt.Sprintf("input: every []rune of length %d (arbitrary int32 runes) without a run of four backticks", l),
 		})
 	}
+	maxB := 5
+	if !c.Quick() {
+		maxB = 7
+	}
+	for l := 0; l <= maxB; l++ {
+		jobs = append(jobs, Job{
+			Name:           fmt.Sprintf("GetSource bytes=%d", l),
+			Target:         t,
+			Run:            SymRun{Harness: "VerifC19GetSource", Params: map[string]int{"L": l}, LoopBound: l + 4, Prune: true},
+			Bounds:         fmt.Sprintf("md.GetSource on a file of %d arbitrary bytes (ill-formed UTF-8 included) without a run of four backticks; positions compared character by character", l),
+			RequiredCovers: []string{"end"},
+		})
+	}
+	c.BoundsText = append(c.BoundsText, fmt.Sprintf("md.GetSource (public API; os.ReadFile served from an in-engine file table) on every file of 0..%d bytes: character positions of the result against the position-wise specification", maxB))
 	c.BoundsText = append(c.BoundsText, fmt.Sprintf("md.loadMd on every rune slice of length 0..%d (case split on the length); loop unwound length+2 times with unwinding assertion", maxL),
 		"outside the claim: longer inputs; runs of four or more backticks (outside the property's domain); the []rune(string(bytes)) round trip of GetSource for ill-formed UTF-8; file I/O; that blanked text is layout for the front-end scanner (C13)")
 	c.Assumptions = append(c.Assumptions, "specification: a fence starts where three backticks follow a non-backtick; a position is code iff an odd number of fences end before it; the front-end scanner counts lines per '\\n' and columns per rune, so position-wise preservation is line/column preservation")
@@ -42,8 +64,15 @@ func parseStub(name string) engine.Intrinsic {
 }
 
 func checkC20(c *Ctx) {
-	t := repoTarget("internal/util", "util", "util/c20.go")
+	t := repoTarget("internal/util", "util", "util/c20.go", "util/shim_repo.go")
 	var jobs []Job
+	// the generated copy (util.RuneValue, IntValue, UintValue) from a freshly generated package
+	var tg *Target
+	if g, err := c.Generate("utilgen", atLexGrammar); err == nil && g.Exit == 0 {
+		tg = g.Target("util", "util/c20.go", "genutil/shim_gen.go")
+	} else {
+		c.Inconclusive = append(c.Inconclusive, fmt.Sprintf("gocc failed while generating the util package: %v", err))
+	}
 	// lengths at which a valid rune literal exists: 'a', '\n' or 2-byte, 3-byte, '\x41' '\101' or
 	// 4-byte, '\u1234', '\U0010FFFF'
 	for _, l := range []int{3, 4, 5, 6, 8, 12} {
@@ -54,6 +83,25 @@ func checkC20(c *Ctx) {
 			Bounds: fmt.Sprintf("every byte string of length %d that is a valid Go rune literal", l),
 		})
 	}
+	if tg != nil {
+		for _, l := range []int{3, 4, 5, 6, 8, 12} {
+			jobs = append(jobs, Job{
+				Name:   fmt.Sprintf("generated RuneValue L=%d", l),
+				Target: tg,
+				Run:    SymRun{Harness: "VerifC20LitToRune", Params: map[string]int{"L": l}, LoopBound: 16, InitExtra: []string{"strconv"}},
+				Bounds: fmt.Sprintf("generated util.RuneValue: every byte string of length %d that is a valid Go rune literal", l),
+			})
+		}
+		for _, l := range []int{0, 2, 19} {
+			jobs = append(jobs, Job{
+				Name:   fmt.Sprintf("generated IntValue L=%d", l),
+				Target: tg,
+				Run: SymRun{Harness: "VerifC20IntValue", Params: map[string]int{"L": l}, LoopBound: 24,
+					Intrinsics: map[string]engine.Intrinsic{"strconv.ParseInt": parseStub("ParseInt"), "strconv.ParseUint": parseStub("ParseUint")}},
+				Bounds: fmt.Sprintf("generated util.IntValue/UintValue: every byte string of length %d", l),
+			})
+		}
+	}
 	for _, l := range []int{0, 1, 3, 20} {
 		jobs = append(jobs, Job{
 			Name:   fmt.Sprintf("IntValue L=%d", l),
@@ -63,6 +111,7 @@ func checkC20(c *Ctx) {
 			Bounds: fmt.Sprintf("every byte string of length %d", l),
 		})
 	}
+	c.BoundsText = append(c.BoundsText, "both copies: gocc's own util.LitToRune and the util.RuneValue of a package generated on this run (template internal/util/gen/golang/litconv.go)")
 	c.BoundsText = append(c.BoundsText, "util.LitToRune on every valid rune literal of 3..12 bytes (12 = '\\U0010FFFF', the longest form); validity and expected value computed by strconv.UnquoteChar + utf8 executed by the same engine",
 		"IntValue/UintValue: strconv.ParseInt/ParseUint are uninterpreted functions of (text, base, bitSize); the claim is that the wrappers pass exactly (string(lit), 10, 64) and return the results unchanged")
 	c.Assumptions = append(c.Assumptions, "Go's rune-literal semantics = strconv.UnquoteChar(body, '\\'') with no error and empty tail, body valid UTF-8, not a raw newline")
